@@ -177,6 +177,30 @@ def sweep(tier, seed):
             if d in dirs:
                 fails.append({'input': {'names': [dirs[d], name]}, 'observed': f'both tasks use {d}', 'expected': 'distinct directories'})
             dirs[d] = name
+        # the same task run twice in the same output directory: the capture files hold what the commands of THIS run wrote, nothing of the earlier run
+        n += 1
+        sub = tempfile.mkdtemp(prefix='again_', dir=root)
+        p1, e1 = one_task(sub, 'again', [0, 0, 0])
+        p2, e2 = one_task(sub, 'again', [0, 1])
+        if e1 or e2 or p1 or p2:
+            fails.append({'input': {'name': 'again', 'exit_statuses': [[0, 0, 0], [0, 1]], 'same_output_directory': True}, 'observed': (p1 or p2 or [repr(e1 or e2)])[:3],
+                          'expected': 'the capture files of the second run hold the output of the second run only'})
+        # the commands run in the directory of the task, and the update records the command lines that were run
+        n += 1
+        sub = tempfile.mkdtemp(prefix='cwd_', dir=root)
+        from valjean.cosette.run import RunTask
+        from valjean.cosette.env import Env
+        cli = [sys.executable, '-c', 'import os; print("cwd=" + os.path.realpath(os.getcwd()))']
+        up, st = RunTask.from_clis('where', [cli]).do(env=Env(), config=_cfg(sub))
+        ent = up['where']
+        seen = [ln for ln in open(ent['stdout']).read().splitlines() if ln.startswith('cwd=')]
+        probs = []
+        if seen != ['cwd=' + os.path.realpath(ent['output_dir'])]:
+            probs.append(f'the command ran in {seen}, the directory of the task is {os.path.realpath(ent["output_dir"])}')
+        if ent.get('clis') != [cli]:
+            probs.append(f'the update records the command lines {ent.get("clis")}')
+        if probs:
+            fails.append({'input': {'name': 'where', 'command': 'print the working directory'}, 'observed': probs, 'expected': 'commands run in the directory that belongs to the task; the recorded command lines are those run'})
         # BuildTask (cosette/code.py): configure then build through a fake cmake whose exit statuses are scripted
         for conf_rc, build_rc, preconfigured in itertools.product((0, 1), (0, 1), (False, True)):
             n += 1
@@ -189,7 +213,7 @@ def sweep(tier, seed):
     return {'name': 'run-task-native', 'evaluations': n, 'distinct': n, 'failures': fails[:8], 'exhaustive': True,
             'bound': f'real RunTask with real child processes: all lists of <= {2 if tier == "quick" else 3} commands with exit status 0 / 1 / missing executable '
                      '(+ selected 3-command lists in the quick tier), both streams; 14 task names incl. empty, ".", "..", with slash / NUL / newline / space; '
-                     '12 look-alike names (case, inner / surrounding whitespace) for directory ownership; BuildTask with a scripted fake cmake: configure / build exit 0 or 1, fresh and already '
+                     '12 look-alike names (case, inner / surrounding whitespace) for directory ownership; one task run twice in the same directory; working directory and recorded command lines; BuildTask with a scripted fake cmake: configure / build exit 0 or 1, fresh and already '
                      'configured build directory', 'samples': [{'name': 'task7', 'exit_statuses': [0, 1, 0]}]}
 
 
